@@ -29,13 +29,13 @@ def loader_cases(ctx, n):
     lits, cj = [], []
     try:
         for k in range(n):
-            mod = "vplug_%d_%d" % (os.getpid(), k)
+            mod = "%splug_%d_%d" % ("av"[k % 2], os.getpid(), k)       # module names that sort before / after the bundled `deep.` plugins
             cands, src = [], ["from deep.api.plugin import Plugin, DidNotEnable", ""]
             custom_cfg = {"APP_ROOT": "/app"}
             for i in range(rng.choice([0, 1, 2, 4, 6])):
                 kind = rng.choice(["ok"] * 5 + ["no_module", "no_class", "ctor_raises", "did_not_enable", "switched_off", "inactive"])
                 order = rng.choice([0, 0, 1, 2, 5, -1, None])
-                name = "P%d" % i
+                name = "P%s%d" % ("zqkfcb"[i], i)        # class names whose alphabetical order is NOT the order in which they are listed
                 c = dict(id=i, kind=kind, order=order)
                 if kind == "no_module":
                     c["path"] = "no_such_module_%d.%s" % (k, name)
@@ -74,7 +74,7 @@ def loader_cases(ctx, n):
             finally:
                 os.remove(os.path.join(build, mod + ".py"))
                 sys.modules.pop(mod, None)
-            got = [int(p.name[1:]) for p in loaded]
+            got = [int(p.name[2:]) for p in loaded]
             usable = [c for c in cands if c["kind"] == "ok"]
             want = [c["id"] for c in sorted(usable, key=lambda c: c["order"] or 0)]
             ctx.case(j, nontrivial=len(usable) >= 2 and len(usable) < len(cands), bucket="loader n=%d" % len(cands))
